@@ -65,8 +65,10 @@ ImplOp(op) == LET S == RunAll(Begin(fs, mem, op)) IN
 
 \* a.rcs = further crashes during recovery (the recovering process was killed
 \* in front of a crash point of New), then an uninterrupted recovery
-ImplCrash(a) == LET R == RunTo(Begin(fs, mem, a.op), a.p, a.n)
-                    C == CrashedRecoveries(R.S.fs, a.rcs)
+\* a.torn >= 0: torn write (the log tail was cut inside the batch, a.torn complete records kept)
+ImplCrash(a) == LET R == IF a.torn >= 0 THEN TornFS(fs, mem, a.op, a.torn)
+                         ELSE LET Q == RunTo(Begin(fs, mem, a.op), a.p, a.n) IN [hit |-> Q.hit, fs |-> Q.S.fs]
+                    C == CrashedRecoveries(R.fs, a.rcs)
                     V == RecoverFS(C.fs) IN
                 /\ R.hit /\ C.hit
                 /\ fs' = V.fs /\ mem' = V.mem /\ obs'.err = ""
@@ -90,11 +92,13 @@ TraceNext ==
                 /\ Chk(C05_Durable(e.args.op, sc, LastBase, sc'), "P", e, "C05_Durable")
                 /\ Chk(C05_NoPhantom(e.args.op, sc, nw, sc'), "P", e, "C05_NoPhantom")
                 /\ Chk(C05_HW(mem.hw, mem'.hw), "P", e, "C05_HW")
+                /\ Chk(C05_NoGhost(Ghostable(e.args.op, sc, LastBase, nw), sc', nw'), "P", e, "C05_NoGhost")
                 /\ StateChecks(e)
                 /\ Chk(ImplCrash(e.args), "I", e, "step")
                 /\ Chk(ObserveOK, "I", e, "observe")
         ELSE /\ Chk(P_Op(e.args, sc, nw, LastBase, mem.hw, obs', sc', mem'.hw), "P", e, "P_Op")
-             /\ IF obs'.err # "" THEN TRUE ELSE StateChecks(e)
+             /\ IF obs'.err # "" THEN TRUE
+                ELSE StateChecks(e) /\ Chk(C05_NoGhost(Ghostable(e.args, sc, LastBase, nw), sc', nw'), "P", e, "C05_NoGhost")
              /\ Chk(ImplOp(e.args), "I", e, "step")
              /\ Chk(ObserveOK, "I", e, "observe")
 
